@@ -340,6 +340,9 @@ func (s *session) run(o runOpts) int {
 		return 2
 	}
 	defer solver.Close()
+	// hash-consed terms carry solver-side definition state: start every run afresh
+	internSmall = map[termKey]*Term{}
+	internBig = map[string]*Term{}
 	ex := &Explorer{solver: solver, maxPaths: o.maxPaths, maxSteps: o.maxSteps, maxConcretize: 64, nextSample: 1}
 	ex.deadline = start.Add(time.Duration(o.timeout) * time.Second)
 	ex.known = loadKnown(o.known, o.property, o.harness)
@@ -475,6 +478,9 @@ func (s *session) run(o runOpts) int {
 	} else {
 		os.Stdout.Write(data)
 		fmt.Println()
+	}
+	if os.Getenv("SYMGO_STATS") != "" {
+		fmt.Fprintf(os.Stderr, "solver values %d calls %.2fs; send time %.2fs read time %.2fs bytes %d; merges %d aborts %d; absDecided %d decisions %d steps %d\n", solver.ValuesCalls, solver.ValuesTime.Seconds(), solver.SendTime.Seconds(), solver.ReadTime.Seconds(), solver.SendBytes, it.Merges, it.MergeAborts, ex.AbsDecided, ex.Decisions, ex.StepsTotal)
 	}
 	fmt.Fprintf(os.Stderr, "%s %s: %s paths=%d asserts=%d/%d queries=%d solver=%.2fs wall=%.2fs viol=%d\n", *harness, *params, res.Status, res.Paths, res.AssertsHeld, res.Asserts, solver.Queries, solver.Time.Seconds(), res.WallS, len(res.Violations))
 	for _, m := range res.Inconclusive {
